@@ -671,7 +671,9 @@ func (g *engine) c10(pc pathCase, thorough bool) {
 func main() {
 	e := vlib.Init()
 	r := vlib.NewRand(uint64(e.Seed))
-	e.Rule = "random topologies (1-2 ISDs, 1-3 core ASes, 2-6 non-core ASes with 1-2 parents, parallel links, 0-3 peering " +
+	e.Rule = "a fixed peering world first (core + two chains of depth 3 with peering links at depth 1 and 2: peering paths " +
+		"with 2- and 3-hop segments, every fault at every position; once with one router per AS, once with 1-3), then " +
+		"random topologies (1-2 ISDs, 1-3 core ASes, 2-6 non-core ASes with 1-2 parents, parallel links, 0-3 peering " +
 		"links, 1-3 border routers per AS, random interface ids), beaconed by the real DefaultExtender (random propagation " +
 		"choices), all (src,dst) pairs through the real Combine; every returned path is sent hop by hop through the real " +
 		"routers; distinct = (path shape, interface sequence, routers, injected fault/tampered bit); model lines = distinct " +
@@ -685,7 +687,19 @@ func main() {
 	shapes := map[string]int{}
 	npaths := 0
 	for wi := 0; wi < nWorlds; wi++ {
-		w, err := genWorld(r, prop == "C04" || prop == "C10")
+		var w *world
+		var err error
+		fixed := false
+		switch {
+		case wi == 0 && prop != "C04":
+			w, err = peerWorld(r, false)
+			fixed = true
+		case wi == 1 && (prop == "C10" || prop == "C02" || prop == "C03"):
+			w, err = peerWorld(r, true)
+			fixed = true
+		default:
+			w, err = genWorld(r, prop == "C04" || prop == "C10")
+		}
 		if err != nil {
 			e.Violate(prop+"/beaconing", "beaconing a generated topology failed: "+err.Error(), map[string]any{"world": wi})
 			continue
@@ -726,6 +740,16 @@ func main() {
 				g.c04(pc, bits)
 				g.rn.emit = true
 			case "C10":
+				if fixed {
+					// the fixed worlds are there for the peering shapes: every position of every
+					// peering path, nothing skipped; of the other paths a sample
+					if pc.dec.InfoFields[0].Peer {
+						g.c10(pc, true)
+					} else if r.Chance(25) {
+						g.c10(pc, false)
+					}
+					continue
+				}
 				if len(pcs) > 25 && !e.Thorough() && r.Chance(60) {
 					continue
 				}
